@@ -1,7 +1,7 @@
 """Table of checks: which harness (overlay dir under /verif/harness), which test, which build variant."""
 
 VARIANTS = {
-    "plain": {},
+    "plain": {"extra_harness": ["queue_export"]},
     # queue code with sync/channel operations routed through the controlled scheduler
     "sched-queue": {"rewrite": ["internal/queue/*.go"]},
     # message pipeline of the root package: queues, message store and group context on the scheduler shims
